@@ -26,6 +26,11 @@ WRITERS = [
 
 
 EXTRA_WRITES3 = {"teleopPeriodic": [("cb", "redecl")], "c0.execute": [("cb", "shadowed"), ("cb", "inherited")], "mode.on_iteration": [("cb", "redecl")]}
+# layout 4: StateMachine components whose markers come from a mix-in listed after / before StateMachine in the bases
+MIX_SRC = "class K_mix:\n    spin = will_reset_to('s')\n\n"
+SM_SRC = "    own = will_reset_to(5)\n    @magicbot.state(first=True)\n    def s0(self):\n        pass\n"
+ATTRS4 = [("c3", "spin", "s", True), ("c3", "own", 5, True), ("c4", "spin", "s", True), ("c4", "own", 5, True)]
+EXTRA_WRITES4 = {"teleopPeriodic": [("c3", "spin")], "c1.execute": [("c3", "own"), ("c4", "spin")], "mode.on_iteration": [("c3", "spin"), ("c4", "own")], "c0.execute": [("c4", "spin")]}
 EXTRA_WRITES = {"teleopPeriodic": [("c2", "flag")], "c0.execute": [("c2", "mark2"), ("c2", "other")], "mode.on_iteration": [("c2", "flag")]}
 
 
@@ -40,10 +45,15 @@ def the_layout(variant=0):
         # the base class that declares the inherited markers is itself a component, declared before its subclass
         cb = c("cb", extra_src="    inherited = will_reset_to('inh')\n    redecl = will_reset_to('base')\n    shadowed = will_reset_to('marker')\n")
         comps = [cb, c0, c("c1", inherit="cb", extra_src=C1_SRC)]
+    if variant == 4:
+        comps = [c0, c("c3", extra_src=SM_SRC), c1, c("c4", extra_src=SM_SRC)]
     lay = R.layout(f"reset{variant}", comps, auto=True, teleop_in_auto=(variant != 1), p_us=20000)
     if variant != 3:
         lay["prelude"] = BASE_SRC
         lay["c1_parent"] = "K_mbase"
+    if variant == 4:
+        lay["prelude"] = BASE_SRC + MIX_SRC
+        lay["parents"] = {"c3": "magicbot.StateMachine, K_mix", "c4": "K_mix, magicbot.StateMachine"}
     return lay
 
 
@@ -55,6 +65,8 @@ def robot_source(lay):
     src = _orig_source(lay)
     if lay.get("prelude"):
         src = lay["prelude"] + src.replace("class K_c1():", f"class K_c1({lay['c1_parent']}):")
+    for nm, parents in (lay.get("parents") or {}).items():
+        src = src.replace(f"class K_{nm}():", f"class K_{nm}({parents}):")
     return src
 
 
@@ -74,14 +86,14 @@ class Hook:
         if r is None or not hasattr(r, "c0") or not hasattr(r, "c1"):
             return
         snap = []
-        attrs = ATTRS + (ATTRS2 if hasattr(r, "c2") else []) + (ATTRS3 if hasattr(r, "cb") else [])
+        attrs = ATTRS + (ATTRS2 if hasattr(r, "c2") else []) + (ATTRS3 if hasattr(r, "cb") else []) + (ATTRS4 if hasattr(r, "c3") else [])
         for comp, attr, _d, _m in attrs:
             snap.append(getattr(getattr(r, comp), attr, "<missing>"))
         rec[2] = snap
         w = self.writers.get(site)
         if w:
             val = f"{site}#{n}"
-            for comp, attr in w + (EXTRA_WRITES.get(site, []) if hasattr(r, "c2") else []) + (EXTRA_WRITES3.get(site, []) if hasattr(r, "cb") else []):
+            for comp, attr in w + (EXTRA_WRITES.get(site, []) if hasattr(r, "c2") else []) + (EXTRA_WRITES3.get(site, []) if hasattr(r, "cb") else []) + (EXTRA_WRITES4.get(site, []) if hasattr(r, "c3") else []):
                 setattr(getattr(r, comp), attr, val)
 
 
@@ -97,6 +109,10 @@ def check(lay, h, life, writers):
         ATTRS = ATTRS + ATTRS3
         for site in wr:
             wr[site] = wr[site] + EXTRA_WRITES3.get(site, [])
+    if any(c["name"] == "c3" for c in lay["comps"]):
+        ATTRS = ATTRS + ATTRS4
+        for site in wr:
+            wr[site] = wr[site] + EXTRA_WRITES4.get(site, [])
     state = {(c, a): d for c, a, d, _m in ATTRS}
     cnt = {}
     for k, st in enumerate(life.steps):
@@ -165,16 +181,16 @@ def main(tier, seed):
     if tier == "thorough":
         cases_fault += [(allw, {a: "every", b: "every"}) for a, b in itertools.combinations(["c0.execute", "c1.execute", "teleopPeriodic", "robotPeriodic", "mode.on_iteration", "c0.fb"], 2)]
     items = []
-    for v in (0, 1, 2, 3):
+    for v in (0, 1, 2, 3, 4):
         lay = the_layout(v)
         for i in range(0, len(hs), 4):
             items.append(dict(layout=lay, histories=hs[i:i + 4], cases=cases_script + cases_fault))
     res = core.Result()
     for d in core.parallel("mc.props.c10", "work", items, seed=seed):
         res.merge(d)
-    res.bounds.update(history_depth=depth, layouts=4, assignment_scripts=16, fault_plans=len(cases_fault), attributes=[f"{c}.{a}" for c, a, _d, _m in ATTRS])
+    res.bounds.update(history_depth=depth, layouts=5, assignment_scripts=16, fault_plans=len(cases_fault), attributes=[f"{c}.{a}" for c, a, _d, _m in ATTRS])
     rule = (
-        "three component layouts (both declaration orders, one with two components that are instances of the same class, one where the base class declaring the inherited markers is itself a component; markers declared on the class, a second marker, a marker inherited from a base "
+        "five component layouts (both declaration orders, one with two components that are instances of the same class, one where the base class declaring the inherited markers is itself a component, one with StateMachine components whose markers come from a mix-in listed after / before StateMachine; markers declared on the class, a second marker, a marker inherited from a base "
         "class, an unmarked attribute) x every driver-station history up to the stated depth x all 16 subsets of assignment sources "
         "(teleopPeriodic, autonomous mode, earlier component, later component) and, with all sources active, every single fault plan "
         "(site x {first, every}) with the FMS attached. Every callback records all six attributes before doing its own assignments; a "
